@@ -52,17 +52,17 @@ theorem slot_of_out (K : PCtx) (q : Nat) (h : q < K.S) : K.slot (K.S - 1 - q) = 
     representation is preserved; the slots below the first parameter index are untouched. -/
 theorem exec_loadActuals (K : PCtx) (wf : K.WF) : ∀ (es : List X.Expr) (fuel : Nat) (st s : X.St) (ws : List Word),
     (∀ e ∈ es, pureE e = true) → X.evalArgs fuel K.xc es st = .ok (ws.map Val.int) s →
-    ∀ (p saved : Nat) (gs : GS) (code : Code) (gs' : GS) (i : Nat) (a b : Word) (mem : Mem) (io : Isa.IOSt),
+    ∀ (p saved : Nat) (gs : GS) (code : Code) (gs' : GS) (i : Nat) (a b : Word) (mem : Mem) (io : Isa.IOSt), st.io = io →
       loadActuals K.ctx (optArgsOf K.ρ es) p saved gs = .ok (code, gs') → At K.env.ds i (K.low code) → Rep K st mem →
       gs'.size + (p + es.length) ≤ K.S → K.nlocals ≤ gs.offset → gs.offset ≤ gs.size → ConstsIn K gs' →
       ∃ a' b' mem', Steps K.env (cfg i a b mem) io (cfg (i + (K.low code).length) a' b' mem') io ∧ Rep K st mem' ∧
         (∀ k (hk : k < ws.length), mem'.read (K.sp + p + k) = ws[k]) ∧
         (∀ q, q < p → mem'.read (K.sp + q) = mem.read (K.sp + q)) ∧
-        Frm K gs.offset K.S mem mem' := by
+        FrmC K gs.offset K.S mem mem' := by
   intro es
   induction es with
   | nil =>
-    intro fuel st s ws _ hev p saved gs code gs' i a b mem io hg hat hr hb hnl hos hci
+    intro fuel st s ws _ hev p saved gs code gs' i a b mem io hio hg hat hr hb hnl hos hci
     simp only [optArgsOf, List.map_nil] at hg
     rw [loadActuals_nil] at hg
     simp only [Except.ok.injEq, Prod.mk.injEq] at hg
@@ -72,9 +72,10 @@ theorem exec_loadActuals (K : PCtx) (wf : K.WF) : ∀ (es : List X.Expr) (fuel :
       | zero => rw [evalArgs_zero] at hev; simp at hev
       | succ f => rw [evalArgs_nil] at hev; simp only [Res.ok.injEq] at hev; simpa using hev.1.symm
     subst hws
-    exact ⟨a, b, mem, Steps.refl _ _, hr, fun k hk => by simp at hk, fun _ _ => rfl, Frm.refl _ _ _ _⟩
+    exact ⟨a, b, mem, Steps.refl _ _, hr, fun k hk => by simp at hk, fun _ _ => rfl, FrmC.refl _ _ _ _⟩
   | cons e rest ih =>
-    intro fuel st s ws hp hev p saved gs code gs' i a b mem io hg hat hr hb hnl hos hci
+    intro fuel st s ws hp hev p saved gs code gs' i a b mem io hio hg hat hr hb hnl hos hci
+    subst hio
     cases fuel with
     | zero => rw [evalArgs_zero] at hev; simp at hev
     | succ f =>
@@ -96,15 +97,16 @@ theorem exec_loadActuals (K : PCtx) (wf : K.WF) : ∀ (es : List X.Expr) (fuel :
           simp only [List.length_cons] at hb
           simp only [low_append, List.append_assoc] at hat ⊢
           have hA := expr_pure_correct K wf f e st v s1 hpe h1
-          obtain ⟨b1, mem1, st1, rep1, frm1⟩ := hA gs c gs1 i a b mem io hg1 hat.left hr
+          obtain ⟨b1, mem1, st1, rep1, frm1⟩ := hA gs c gs1 i a b mem hg1 hat.left hr
             (by have := e2.2.1; omega) hnl (hci.of_eff e2)
+          rw [hiB_true] at frm1
           -- store into the parameter slot
           have hmid : K.low [iLDBM SP_OFFSET, iSTAI (p : Int)] = [.imm 0x1 1, .imm 0x8 (p : Int)] := rfl
           rw [hmid] at hat ⊢
           have hld := hat.right.left.get 0 _ rfl
           have hst := hat.right.left.get 1 _ rfl
           simp only [Nat.add_zero] at hld hst
-          have sA := Step.ldbm (env := K.env) (cfg (i + (K.low c).length) v b1 mem1) io 1 _ hld (ld_one mem1)
+          have sA := Step.ldbm (env := K.env) (cfg (i + (K.low c).length) v b1 mem1) st.io 1 _ hld (ld_one mem1)
           have hpS : p < K.S := by omega
           obtain ⟨hsl1, hsl2⟩ := wf.slot_ok (K.S - 1 - p) (by omega)
           rw [slot_of_out K p hpS] at hsl1 hsl2
@@ -114,7 +116,7 @@ theorem exec_loadActuals (K : PCtx) (wf : K.WF) : ∀ (es : List X.Expr) (fuel :
             rw [hadr]; exact store_ofNat _ _ _ _ hsl1 hsl2
           have hne1 : (mem1.read 1 + IAm.W (p : Int)).toNat ≠ 1 := by
             rw [hadr]; exact ofNat_toNat_ne_one _ (by have := wf.sp_ge; omega) hsl1
-          have sB := Step.stai (env := K.env) (cfg (i + (K.low c).length + 1) v (mem1.read 1) mem1) io _ _ hst hsto hne1
+          have sB := Step.stai (env := K.env) (cfg (i + (K.low c).length + 1) v (mem1.read 1) mem1) st.io _ _ hst hsto hne1
           have frm2 : Frm K (K.S - 1 - p) (K.S - p) mem1 (mem1.write (K.sp + p) v) := by
             intro ad had
             rw [Mem.read_write_other]
@@ -124,7 +126,7 @@ theorem exec_loadActuals (K : PCtx) (wf : K.WF) : ∀ (es : List X.Expr) (fuel :
           have rep2 := rep1.frame wf frm2 (by have := e1.2.1; have := e2.2.1; omega) (by omega)
           have hs1 := eval_pure K.xc _ _ _ _ _ hpe h1
           obtain ⟨a', b', mem', st3, rep3, hvals, hkeep, frm3⟩ := ih f s1 s ws' hprest h2 (p + 1) saved gs1 cs gs'
-            (i + (K.low c).length + 1 + 1) v (mem1.read 1) (mem1.write (K.sp + p) v) io hg2
+            (i + (K.low c).length + 1 + 1) v (mem1.read 1) (mem1.write (K.sp + p) v) st.io hs1.2.2.2.1 hg2
             (by simpa [Nat.add_assoc] using hat.right.right) (rep2.same hs1)
             (by omega) (by have := e1.1; omega) (by have := e1.1; have := e1.2.1; omega) hci
           refine ⟨a', b', mem', ?_, rep3.same hs1.symm, ?_, ?_, ?_⟩
@@ -147,18 +149,18 @@ theorem exec_loadActuals (K : PCtx) (wf : K.WF) : ∀ (es : List X.Expr) (fuel :
               congr 1; omega
           · intro q hq
             rw [hkeep q (by omega), Mem.read_write_other _ _ _ _ (by omega)]
-            apply frm1
+            apply frm1 _ (by omega) (wf.not_inArr _ (by omega))
             intro k h1' h2' e
             have hq' : q < K.S := by omega
             rw [← slot_of_out K q hq'] at e
             have := slot_inj K (K.S - 1 - q) k (by omega) (by have := e2.2.1; omega) e
             have := e2.2.1
             omega
-          · intro ad had
-            rw [frm3 ad (fun k h1' h2' => had k (by have := e1.1; omega) h2')]
+          · intro ad hsp hna had
+            rw [frm3 ad hsp hna (fun k h1' h2' => had k (by have := e1.1; omega) h2')]
             rw [Mem.read_write_other _ _ _ _ (fun e => had (K.S - 1 - p)
               (by have := e1.2.1; have := e2.2.1; omega) (by omega) (by rw [slot_of_out K p hpS]; exact e.symm))]
-            exact frm1 ad (fun k h1' h2' => had k h1' (by have := e2.2.1; omega))
+            exact frm1 ad hsp hna (fun k h1' h2' => had k h1' (by have := e2.2.1; omega))
 
 /-! ### System-call statements -/
 
@@ -184,7 +186,8 @@ theorem optArgsOf_noCall (ρ : String → Option Word) (es : List X.Expr) (hp : 
   exact pure_noCall ρ e (hp e he)
 
 theorem Rep.setIo {K : PCtx} {σ : X.St} {mem : Mem} (h : Rep K σ mem) (io : Isa.IOSt) : Rep K { σ with io := io } mem :=
-  ⟨h.sp, h.vals, fun n w hn hr => h.vars n w hn hr, h.consts, h.locs, h.above, h.gvis, h.depth⟩
+  ⟨h.sp, h.vals, fun n w hn hr => h.vars n w hn hr, h.consts, h.locs, h.above, h.gvis, h.depth,
+   fun n r hr => h.aptr n r hr, fun id cells hc => h.acells id cells hc⟩
 
 theorem sysId_small (id : Nat) (h : id < 3) : sysIdOfNat id = (id : Int) := by
   unfold sysIdOfNat
@@ -235,7 +238,7 @@ theorem exec_syscall (K : PCtx) (wf : K.WF) (id : Nat) (hid : id < 3) (es : List
     | .exit cd _ => ∃ c, Steps K.env (cfg i a b mem) io c io ∧ Exit K.env c io cd
     | .ok r s' =>
       ∃ a' b' mem', Steps K.env (cfg i a b mem) io (cfg (i + (K.low code).length) a' b' mem') s'.io ∧ Rep K st mem' ∧
-        (∀ v, r = some v → a' = v) ∧ Frm K gs.offset K.S mem mem'
+        (∀ v, r = some v → a' = v) ∧ FrmC K gs.offset K.S mem mem'
     | .undef _ => True := by
   obtain ⟨c1, gs1, c2, gs2, h1, h2, hcode, hgs'⟩ := callSeq_inv _ _ _ _ _ _ _ _ hg
   obtain ⟨hnc, hcnt⟩ := genCallActuals_noCall K.ctx (optArgsOf K.ρ es) { gs with size := gs.offset } (optArgsOf_noCall K.ρ es hp)
@@ -256,7 +259,8 @@ theorem exec_syscall (K : PCtx) (wf : K.WF) (id : Nat) (hid : id < 3) (es : List
   have hwl : ws.length = es.length := by
     have := evalArgs_length K.xc es fuel st s _ hev
     simpa using this
-  obtain ⟨a1, b1, mem1, st1, rep1, hvals, _, frm1⟩ := exec_loadActuals K wf es fuel st s ws hp hev 2 gs.offset _ c2 gs2 i a b mem io h2
+  obtain ⟨a1, b1, mem1, st1, rep1, hvals, _, frm1⟩ := exec_loadActuals K wf es fuel st s ws hp hev 2 gs.offset _ c2 gs2 i a b mem io
+    (by rw [← hio]; exact ((evalArgs_pure K.xc es fuel st s _ hp hev).2.2.2.1).symm) h2
     hat.left hr (by omega) hnl (Nat.le_refl _) (fun x hx => hci x hx)
   simp only at frm1
   -- without actuals every system call is undefined
@@ -392,6 +396,6 @@ theorem exec_syscall (K : PCtx) (wf : K.WF) (id : Nat) (hid : id < 3) (es : List
         · intro v hv
           simp only [Option.some.injEq] at hv
           rw [← hv, hio]
-        · exact frm1.trans (frm2.mono (by omega) (by omega))
+        · exact frm1.trans ((frm2.mono (by omega) (by omega)).toC)
 
 end Hex.C01s
